@@ -53,7 +53,7 @@ def generate(rng, tier, index):
         recipe["n"] = rng.randint(10, 14)
         recipe["lik"] = rng.choice(["gaussian", "fixed"])
         # rough kernels keep the train covariance numerically full rank, so Lanczos runs all N iterations (square roots)
-        recipe["kernel"] = rng.choice(["matern05", "matern05", "matern15", "rbf", "sum"])
+        recipe["kernel"] = rng.choice(["matern05", "matern05", "matern15"])  # (a smooth kernel is numerically low rank: truncated root)
     faulty = index % 3 == 2
     allow = {"fast_pred_var", "detach_test_caches", "max_eager_kernel_size", "lazily_evaluate_kernels"}
     if recipe["family"] == "kissgp":
